@@ -13,8 +13,13 @@ one() {
   else echo "ERROR    $(basename $d) rc=$rc: $(echo "$out" | tail -2 | tr '\n' ' ' | cut -c1-200)"; fi
 }
 export -f one
-ls -d seeded/* | while read d; do
-  id=$(basename "$d" | cut -d- -f1)
-  if [ -n "$props" ]; then case " $props " in *" $id "*) ;; *) continue;; esac; fi
-  echo "$d"
-done | xargs -P 6 -I{} bash -c 'one {}' | sort
+sel() {
+  ls -d seeded/* | while read d; do
+    id=$(basename "$d" | cut -d- -f1)
+    if [ -n "$props" ]; then case " $props " in *" $id "*) ;; *) continue;; esac; fi
+    echo "$d"
+  done
+}
+# C01 runs eight analysis workers of its own (several GB each): two at a time
+{ sel | grep -v '/C01-' | xargs -r -P 6 -I{} bash -c 'one {}'
+  sel | grep '/C01-' | xargs -r -P 2 -I{} bash -c 'one {}'; } | sort
